@@ -743,6 +743,7 @@ def rebase(snapshot, ghost_before, current):
 #   R32b  `if let P = E { X } else { Y }`      -> `match E { P => { X } _ => { Y } }`
 #   R33a  `loop { if C { break; } B }`         -> `while !(C) { B }`
 #   R33b  `while C { B }`                      -> `loop { if !(C) { break; } B }`   (C without `let`)
+#   R34   `A op B`                             -> `B op' A`                         (comparison with swapped operands; simple operands only)
 # `!(C)` is simplified only where that is exact for every type: `!(!X)` = X for an operator-free X, `!(a == b)` = `a != b`.
 _BINOPS = ('&&', '||', '==', '!=', '<', '>', '<=', '>=', '+', '-', '*', '/', '%', '&', '|', '^', '<<', '>>', '=', 'as', '..', '..=', '?')
 
@@ -921,6 +922,51 @@ def _norm_candidates(ts):
         except (ValueError, IndexError):
             continue
 
+_FLIP = {'<': '>', '>': '<', '<=': '>=', '>=': '<=', '==': '==', '!=': '!='}
+_ATOM = re.compile(r'^(?:[A-Za-z_][A-Za-z0-9_]*|\d[\dA-Za-z_]*(?:\.\d[\dA-Za-z_]*|\.)?)$')
+
+def _swap_candidates(ts):
+    """R34: `A op B` -> `B op' A` for a comparison whose operands are simple (identifier / literal / field / path / call / index chains)
+    and which is delimited on both sides by tokens that cannot belong to a larger operand.  Exact for every type (IEEE included)."""
+    n = len(ts)
+    for i in range(1, n - 1):
+        if ts[i] not in _FLIP: continue
+        # left operand
+        j = i - 1
+        try:
+            while j >= 0:
+                t = ts[j]
+                if t in (')', ']'):
+                    d = 0; k = j
+                    while k >= 0:
+                        if ts[k] in (')', ']'): d += 1
+                        elif ts[k] in ('(', '['):
+                            d -= 1
+                            if d == 0: break
+                        k -= 1
+                    if k < 0: raise ValueError
+                    j = k - 1; continue
+                if t in ('.', '::') or (_ATOM.match(t) and t not in ('as', 'if', 'while', 'return', 'in', 'let', 'else', 'match')): j -= 1; continue
+                break
+            lo = j + 1
+            if lo >= i or j < 0 or ts[j] not in ('(', '||', '&&', 'if', 'while', '=', 'return', '{', ';', ',', '!'): continue
+            if ts[lo] in ('.', '::') or ts[lo] in ('(', '['): continue
+            k = i + 1
+            while k < n:
+                t = ts[k]
+                if t in ('(', '['):
+                    k = match_close(ts, k) + 1; continue
+                if t in ('.', '::') or (_ATOM.match(t) and t not in ('as', 'if', 'while', 'return', 'in', 'let', 'else', 'match')): k += 1; continue
+                break
+            hi = k
+            if hi <= i + 1 or hi >= n or ts[hi] not in (')', '||', '&&', '{', '}', ';', ',') : continue
+            if ts[i + 1] in ('.', '::', '(', '['): continue
+            L, R = ts[lo:i], ts[i + 1:hi]
+            if any(x in ('<', '>') for x in L + R): continue
+            yield 'R34', ts[:lo] + R + [Tok(_FLIP[ts[i]], getattr(ts[i], 'line', None))] + L + ts[hi:]
+        except (ValueError, IndexError):
+            continue
+
 def _lcs_dist(a, b):
     sm = difflib.SequenceMatcher(a=a, b=b, autojunk=False)
     m = sum(bl.size for bl in sm.get_matching_blocks())
@@ -935,11 +981,21 @@ def directed_normalize(raw, snap, pipeline, max_steps=6):
     for _ in range(max_steps):
         if best == 0: break
         pick = None
-        for name, cand in _norm_candidates(raw):
+        import itertools
+        for name, cand in itertools.chain(_norm_candidates(raw), _swap_candidates(raw)):
             try: pc = pipeline(cand)
             except Exception: continue
             d = _lcs_dist(strs(pc), s)
             if d < best and (pick is None or d < pick[0]): pick = (d, name, cand, pc)
-        if pick is None: break
+        if pick is None:
+            # two swapped comparisons that only TOGETHER match a rewrite pattern (`0.0 >= t || 1.0 < t` for the shim pattern `$1 <= 0.0 || $1 > 1.0`)
+            firsts = list(_swap_candidates(raw))[:24]
+            for _, c1 in firsts:
+                for _, c2 in list(_swap_candidates(c1))[:24]:
+                    try: pc = pipeline(c2)
+                    except Exception: continue
+                    d = _lcs_dist(strs(pc), s)
+                    if d < best and (pick is None or d < pick[0]): pick = (d, 'R34+R34', c2, pc)
+            if pick is None: break
         best, name, raw, cur = pick; applied.append(name)
     return cur, applied
